@@ -827,3 +827,22 @@ def gen_bench_subst(chk):
                                    "%s=f%s" % (gen.hx("w0"), gen.hx(gen.render(sub))),
                                    ",".join(gen.hx(x) for x in [gen.render(f), gen.render(g)])],
                       tag="bench-subst", meta={"net": nm})
+
+
+def gen_library_coincidence(chk):
+    """C11: EF / AG / EU vs the graph library's reach_backward / trap_forward / constrained
+    backward reachability (implementation against library, any size)"""
+    from .shellprops import add_shell
+    rng = chk.rng
+    nets = [(nm, gen.CURATED[nm]) for nm in ("N05", "N12", "N13", "N15", "N16", "N19")]
+    nets += bench_models(thorough(chk))
+    for i in range(cnt(chk, 4, 10)):
+        net = gen.random_network(rng, max_n=3, max_bits=8)
+        if net_props(net):
+            nets.append(("R%d" % i, net))
+    for nm, net in nets:
+        props = net_props(net)
+        for j in range(cnt(chk, 2, 4)):
+            sdef = gen.render(gen.random_formula(rng, rng.randint(0, 3), props, max_vars=0, unops=["Not"], binops=["And", "Or", "Xor"]))
+            tdef = gen.render(gen.random_formula(rng, rng.randint(0, 3), props, max_vars=0, unops=["Not"], binops=["And", "Or", "Imp"]))
+            add_shell(chk, "LIBR", ["A:" + gen.hx(net), gen.hx(sdef), gen.hx(tdef)], tag="library", meta={"net": nm})
